@@ -230,12 +230,15 @@ def tlc_expect_violation(ctx, module, cfg, invariant, workers=4, timeout=900):
     log("[loopA] %s/%s: counterexample to %s found as expected (wrong design alternative), %.1fs" % (module, cfg, invariant, wall))
 
 
-def tlaps_prove(ctx, relpath, timeout=900):
+def tlaps_prove(ctx, relpath, timeout=900, with_modules=()):
     """Machine-checks a TLAPS proof module (unbounded design-level lemma). A failing proof is a broken
-    specification (infrastructure error), never a violation of the code."""
+    specification (infrastructure error), never a violation of the code. with_modules: specification modules the
+    proof module EXTENDS (the proof is then about the very module TLC checks)."""
     d = tempfile.mkdtemp(prefix="tlaps-", dir=ctx.work)
     src = os.path.join(SPECS, relpath)
     shutil.copy(src, d)
+    for m in with_modules:
+        shutil.copy(os.path.join(SPECS, m), d)
     t = time.time()
     p = subprocess.run(["timeout", str(timeout), "tlapm", "--threads", str(max(2, NCPU // 2)), os.path.basename(src)], cwd=d, capture_output=True, text=True)
     out = p.stdout + p.stderr
